@@ -81,6 +81,7 @@ type FuncContract struct {
 	Invs     map[int][]*Clause // loop ordinal -> invariants
 	Decr     map[int]*Clause
 	LoopHints map[int][]*Clause
+	ErrExit   map[int]*Clause // loop ordinal -> ErrDecimal local that must be clean whenever the loop iterates again
 	Hints    []*Clause // ground lemma instances / extra facts to be proved then assumed at entry? (proved as obligations first)
 	Outs     []string  // destination parameters (for F2)
 	Operands []string
@@ -623,6 +624,11 @@ func ParseSpecFile(path string) (*Spec, error) {
 					cur.Invs[n] = append(cur.Invs[n], c)
 				case "decreases":
 					cur.Decr[n] = c
+				case "errexit":
+					if cur.ErrExit == nil {
+						cur.ErrExit = map[int]*Clause{}
+					}
+					cur.ErrExit[n] = c
 				case "hint":
 					if cur.LoopHints == nil {
 						cur.LoopHints = map[int][]*Clause{}
